@@ -189,6 +189,35 @@ example : (run foldSimp (fun _ _ => .unsat) {} exEnv exCode 100).ends = [] ∧
     non-zero and at most 2^256 − 2^64; `f_inv_sha3_<bits>` / `f_inv_sha3_size` invert the hash on its low 160 bits)
     are true under `I` at every state the exploration visits whose path `I` satisfies the SHA3 of: they are modelling
     assumptions of halmos, not consequences; `shaOK_of_ideal` derives it from the inputs being ideal (`HashIdeal`). -/
+theorem complete_calls_gen {s : Simp} (hs : SimpSound s) {o : Oracle} (ho : OracleSound o) (cfg : Cfg) (env : Env)
+    (codes : List (Nat × List Nat)) (this : Nat) (fuel : Nat) (p : Evm.Params) (w : Evm.World)
+    (SS : Nat → Prop) (hS0 : SS this) (hSc : ∀ a prog, codeOf codes a = some prog → SS a)
+    (hmem : cfg.maxMem + 32 ≤ p.memLimit) (hdep : 1024 ≤ p.maxDepth)
+    (hcodes : ∀ a, w.codeOf a = codeOf codes a)
+    (hcb : ∀ a prog, codeOf codes a = some prog → ∀ b ∈ prog, b < 256)
+    (hz : ∀ a, SS a → C01.ZeroStorage w a) (hch : CreateHyp cfg p SS w)
+    (I : Interp) (hI : I.Std) (hbal : cfg.balances = true → BalHyp I cfg w)
+    (hbound : cfg.balances = true → BalBound w) (hsha : cfg.sha3 = true → ShaInterp I p cfg)
+    (hshaok : ∀ cs, VisitedC s o cfg codes (initC env codes this) cs → ShaOK I s cfg cs) (f0 : Evm.Frame)
+    (hR0 : R I env ((codeOf codes this).getD []) p initState f0) (hthis : f0.this = this) (hd0 : f0.depth = 0)
+    (n : Nat) (w' : Evm.World) (h : Evm.Halt) (hex : Evm.exec p n w f0 = some (w', h)) :
+    (∃ ce ∈ (runC s o cfg env codes this fuel).ends, Sat I ce.e.st.path ∧
+        ((∃ h0, ce.e.out = .halt h0 ∧ haltWith h0 (ce.e.data.map (·.eval I)) = h ∧ ce.e.tag = .normal ∧
+            WRelM I SS (wd w ce.created ce.nonce) w' (stoOf ce.stores) (evalLogs I ce.logs)
+              (balSem I w ce.bal) ∧
+            (∀ b ∈ ce.e.data, b.WF ∧ b.width = 8)) ∨
+         (∃ r, ce.e.out = .stuck r) ∨ ce.e.tag ≠ .normal)) ∨
+    (runC s o cfg env codes this fuel).boundedLoops ≠ [] ∨
+    (runC s o cfg env codes this fuel).depthCut = true ∨
+    (runC s o cfg env codes this fuel).outOfFuel = true :=
+  exploreC_complete (cfg := cfg) (codes := codes) (S := SS) (r := (w', h)) hs ho hmem hdep hcodes
+    hSc hcb hI hbal hsha hch hshaok fuel 0 [initC env codes this] {}
+    (fun cs hm => by rw [List.mem_singleton.1 hm]; exact .start)
+    ⟨initC env codes this, List.mem_singleton.2 rfl, Sat.nil I, w, f0, [], relC_init hR0 hthis hd0 hcb hS0 hz, ⟨n, hex⟩,
+      fun hC => ⟨hbound hC, fun kc hm => absurd hm List.not_mem_nil⟩⟩
+
+/-- **C02.complete_calls** (statement and commentary above; `hnc`: CREATE is not followed — it ends the path stuck;
+    `wd w ce.created ce.nonce`: see `C01.sound_calls`). -/
 theorem complete_calls {s : Simp} (hs : SimpSound s) {o : Oracle} (ho : OracleSound o) (cfg : Cfg) (env : Env)
     (codes : List (Nat × List Nat)) (this : Nat) (fuel : Nat) (p : Evm.Params) (w : Evm.World)
     (hmem : cfg.maxMem + 32 ≤ p.memLimit) (hdep : 1024 ≤ p.maxDepth)
@@ -202,17 +231,46 @@ theorem complete_calls {s : Simp} (hs : SimpSound s) {o : Oracle} (ho : OracleSo
     (n : Nat) (w' : Evm.World) (h : Evm.Halt) (hex : Evm.exec p n w f0 = some (w', h)) :
     (∃ ce ∈ (runC s o cfg env codes this fuel).ends, Sat I ce.e.st.path ∧
         ((∃ h0, ce.e.out = .halt h0 ∧ haltWith h0 (ce.e.data.map (·.eval I)) = h ∧ ce.e.tag = .normal ∧
-            WRelM I (Modelled codes this) w w' (stoOf ce.stores) (evalLogs I ce.logs) (balSem I w ce.bal) ∧
+            WRelM I (Modelled codes this) (wd w ce.created ce.nonce) w' (stoOf ce.stores) (evalLogs I ce.logs)
+              (balSem I w ce.bal) ∧
             (∀ b ∈ ce.e.data, b.WF ∧ b.width = 8)) ∨
          (∃ r, ce.e.out = .stuck r) ∨ ce.e.tag ≠ .normal)) ∨
     (runC s o cfg env codes this fuel).boundedLoops ≠ [] ∨
     (runC s o cfg env codes this fuel).depthCut = true ∨
     (runC s o cfg env codes this fuel).outOfFuel = true :=
-  exploreC_complete (cfg := cfg) (codes := codes) (S := Modelled codes this) (r := (w', h)) hs ho hmem hdep hcodes
-    (fun _ _ h => modelled_of_code h) hcb hI hbal hsha hnc hshaok fuel 0 [initC env codes this] {}
-    (fun cs hm => by rw [List.mem_singleton.1 hm]; exact .start)
-    ⟨initC env codes this, List.mem_singleton.2 rfl, Sat.nil I, w, f0, [], relC_init hR0 hthis hd0 hcb hz, ⟨n, hex⟩,
-      fun hC => ⟨hbound hC, fun kc hm => absurd hm List.not_mem_nil⟩⟩
+  complete_calls_gen hs ho cfg env codes this fuel p w (Modelled codes this) (Or.inl rfl)
+    (fun _ _ h => modelled_of_code h) hmem hdep hcodes hcb hz (CreateHyp.off hnc) I hI hbal hbound hsha hshaok f0 hR0
+    hthis hd0 n w' h hex
+
+/-- **C02.complete_calls_create_partial.** The same with CREATE followed; PARTIAL exactly as
+    `C01.sound_calls_create_partial` (balances layer off: a CREATE with a value is an error report, which covers the
+    run; hypotheses `hcv`, `hal`, `hbw`, `hz` over `ModelledC` as there). -/
+theorem complete_calls_create_partial {s : Simp} (hs : SimpSound s) {o : Oracle} (ho : OracleSound o) (cfg : Cfg)
+    (env : Env) (codes : List (Nat × List Nat)) (this : Nat) (fuel : Nat) (p : Evm.Params) (w : Evm.World)
+    (hmem : cfg.maxMem + 32 ≤ p.memLimit) (hdep : 1024 ≤ p.maxDepth)
+    (hcodes : ∀ a, w.codeOf a = codeOf codes a)
+    (hcb : ∀ a prog, codeOf codes a = some prog → ∀ b ∈ prog, b < 256)
+    (hz : ∀ a, ModelledC cfg codes this a → C01.ZeroStorage w a)
+    (hcr : cfg.create = true) (hcv : cfg.balances = false)
+    (hal : ∀ n, p.newAddress (w.created + n) = (cfg.allocBase + n) % 2 ^ 160)
+    (hbw : ∀ a, w.balanceOf a < 2 ^ 256)
+    (I : Interp) (hI : I.Std) (hsha : cfg.sha3 = true → ShaInterp I p cfg)
+    (hshaok : ∀ cs, VisitedC s o cfg codes (initC env codes this) cs → ShaOK I s cfg cs) (f0 : Evm.Frame)
+    (hR0 : R I env ((codeOf codes this).getD []) p initState f0) (hthis : f0.this = this) (hd0 : f0.depth = 0)
+    (n : Nat) (w' : Evm.World) (h : Evm.Halt) (hex : Evm.exec p n w f0 = some (w', h)) :
+    (∃ ce ∈ (runC s o cfg env codes this fuel).ends, Sat I ce.e.st.path ∧
+        ((∃ h0, ce.e.out = .halt h0 ∧ haltWith h0 (ce.e.data.map (·.eval I)) = h ∧ ce.e.tag = .normal ∧
+            WRelM I (ModelledC cfg codes this) (wd w ce.created ce.nonce) w' (stoOf ce.stores) (evalLogs I ce.logs)
+              (balSem I w ce.bal) ∧
+            (∀ b ∈ ce.e.data, b.WF ∧ b.width = 8)) ∨
+         (∃ r, ce.e.out = .stuck r) ∨ ce.e.tag ≠ .normal)) ∨
+    (runC s o cfg env codes this fuel).boundedLoops ≠ [] ∨
+    (runC s o cfg env codes this fuel).depthCut = true ∨
+    (runC s o cfg env codes this fuel).outOfFuel = true :=
+  complete_calls_gen hs ho cfg env codes this fuel p w (ModelledC cfg codes this) (Or.inl (Or.inl rfl))
+    (fun _ _ h => Or.inl (modelled_of_code h)) hmem hdep hcodes hcb hz
+    (fun hc => ⟨hcv, hal, fun n => Or.inr ⟨hc, n, rfl⟩, hbw⟩) I hI (fun h' => by rw [hcv] at h'; cases h')
+    (fun h' => by rw [hcv] at h'; cases h') hsha hshaok f0 hR0 hthis hd0 n w' h hex
 
 /-- `complete_calls` on the caller / callee pair of Props.C01: the reference EVM returns the callee's 32 bytes; no
     flag is raised in that run and its only end is an untagged halt, so it must be the reporting one -/
